@@ -78,6 +78,29 @@ package main
 //@   oncall NewLocalStore: requires $arg0 == opt.store && $arg1 == $vopt
 //@   oncall Verify: requires $arg1 == opt.n && $arg2 == opt.repair
 
+//# cat: the bytes written are those of the indexed blob from --offset on, --length of them (or all that follow):
+//# the reader is positioned by one successful Seek to the offset from the start, then exactly one copy runs -
+//# CopyN of the length when one was given, Copy otherwise - and the command succeeds only if that copy did
+//@ ghost var $skErr error
+//@ ghost var $sought bool
+//@ ghost var $catDone bool
+//@ func runCat
+//@   prop C09
+//@   safety none
+//@   ghost@entry $sought = false
+//@   ghost@entry $catDone = false
+//# (the index read from the file is one IndexFromReader accepted: contiguous chunks; `truthful` is the model's
+//# standing assumption that an index describes its blob - both assumed here, readCaibxFile is not under contract)
+//@   assume@before:NewIndexReadSeeker wfChunks(c.Chunks) && truthful(c.Chunks)
+//@   ghost@after:Seek $skErr = $r1
+//@   ghost@after:Seek $sought = true
+//@   ghost@after:CopyN $catDone = ($r1 == nil)
+//@   ghost@after:Copy $catDone = ($r1 == nil)
+//@   oncall Seek: requires !$sought && $arg0 == opt.offset && $arg1 == 0
+//@   oncall CopyN: requires $sought && $skErr == nil && !$catDone && opt.length > 0 && $arg2 == opt.length
+//@   oncall Copy: requires $sought && $skErr == nil && !$catDone && opt.length <= 0
+//@   ensures r0 == nil ==> $catDone
+
 // ---------------------------------------------------------------------------- C15
 
 //# chunk-server: the handler serving the store is built with the writable, --skip-verify-write and
